@@ -59,7 +59,10 @@ def case(ctx, i):
             elif "could be read back from the typeid file" in l:
                 feats.setdefault("type-id-not-read-back-from-typeid-file", l)
             else:
-                feats.setdefault("other:" + re.sub(r"[^a-z]+", "-", l.lower())[:40], l)
+                # the message without what it quotes (type names, ids, addresses): a stable key
+                msg = re.sub(r"'[^']*'", "", l)
+                msg = re.sub(r"\b(ptr|type-id|from second corpus).*", "", msg)
+                feats.setdefault("other:" + re.sub(r"[^a-z]+", "-", msg.lower()).strip("-")[:60], l)
         if res.rc != 0 and not feats:
             feats["exit-%s" % res.rc] = "exit status %s" % res.rc
         for f, l in sorted(feats.items()):
